@@ -822,9 +822,21 @@ def generate(rng, tier):
 # observation
 # ------------------------------------------------------------------------------------------------
 def observe(cases):
+    """A runner process that dies (the library cannot even be imported, a hard exit) is an observation too: every
+    case it was given is reported as a crash outside the documented channel, so the failing input is kept."""
+    from concurrent.futures import ThreadPoolExecutor
+
     n = min(16, max(1, len(cases) // 20 + 1))
     chunks = [cases[i::n] for i in range(n)]
-    res = run_impl_parallel("c20_run.py", [{"cases": ch} for ch in chunks])
+
+    def one(ch):
+        try:
+            return framework.run_impl("c20_run.py", {"cases": ch})
+        except framework.ImplCrash as e:
+            return [{"crash": "runner process died: " + str(e)[-400:]} for _ in ch]
+
+    with ThreadPoolExecutor(max_workers=getattr(framework, "JOBS", 8)) as ex:
+        res = list(ex.map(one, chunks))
     out = [None] * len(cases)
     for k, r in enumerate(res):
         out[k::n] = r
@@ -1004,13 +1016,14 @@ META = {
                   "re.match = prefix match, `$` allows one final newline, under MULTILINE any newline; IGNORECASE / DOTALL / "
                   "VERBOSE are resolved by the translator), C20_string_type_creation (the registry of extend_base_type: inside "
                   "the guard the type handed back accepts exactly what the GIVEN compiled pattern accepts), "
-                  "C20_string_type_creation_flags_in_key (with fixes/C20-string-type-key-ignores-flags.patch no guard is left, "
-                  "along any history of creations), C20_string_type_key_ignores_flags_refuted (open finding: the key is the "
-                  "pattern text only). Registered types: C20_registry (the module-level "
+                  "C20_string_type_creation_flags_in_key (the key of the repaired tree, /repo e33ad1a, read from the source: no "
+                  "guard is left, along any history of creations), C20_string_type_key_ignores_flags_refuted (regression "
+                  "witness: the text-only key). Registered types: C20_registry (the module-level "
                   "register_type calls, regenerated from the source, bind each type to the modelled serializer/deserializer pair); "
                   "C20_range_roundtrip for ALL ranges over Z (empty ones included) and C20_range_regexes (the three patterns of "
                   "the source accept exactly what the model's scanner accepts, for every string); C20_timedelta_roundtrip for ALL "
-                  "representable timedeltas (negative, sub-second) and C20_timedelta_regexes (likewise for the two patterns of "
+                  "representable timedeltas (negative, sub-second), C20_timedelta_registered_roundtrip (through "
+                  "RegisteredType.deserializer with the default deserializer_exceptions read from the source) and C20_timedelta_regexes (likewise for the two patterns of "
                   "timedelta_deserializer under re.match); C20_secret_never_dumped; Decimal: "
                   "C20_decimal_via_float_refuted (registered with serializer float the file round trip of Decimal('0.1') fails "
                   "whatever float() returns: the defect repaired by /repo 5683186, kept as regression witness), "
